@@ -284,7 +284,8 @@ func floatChain(v ssa.Value, seen map[ssa.Value]bool, chain *[]ssa.Value, risky 
 	case *ssa.MakeInterface:
 		floatChain(x.X, seen, chain, risky, linear)
 	case *ssa.Convert:
-		if isFloat64(x.X.Type()) {
+		// an integer made from a double is not a double (R-F2I judges that step)
+		if isFloat64(x.X.Type()) && isFloat64(x.Type()) {
 			floatChain(x.X, seen, chain, risky, linear)
 		}
 	case *ssa.Phi:
@@ -310,6 +311,10 @@ func floatChain(v ssa.Value, seen map[ssa.Value]bool, chain *[]ssa.Value, risky 
 			if g := c.Call.StaticCallee(); g != nil && rawFloatFns[g] && !finiteFilter(g) {
 				*risky = append(*risky, x)
 			}
+			// json.Number.Float64 is strconv.ParseFloat: ±Inf comes with ErrRange
+			if isJSONNumberFloat64(c) {
+				*risky = append(*risky, x)
+			}
 		}
 	case *ssa.Call:
 		q := calleeQualified(&x.Call)
@@ -322,8 +327,23 @@ func floatChain(v ssa.Value, seen map[ssa.Value]bool, chain *[]ssa.Value, risky 
 			if g := x.Call.StaticCallee(); g != nil && rawFloatFns[g] && !finiteFilter(g) {
 				*risky = append(*risky, x)
 			}
+			// a callback func(float64) float64 (abs, floor, ceiling handed in as
+			// a value): at best it preserves finiteness, so what goes in counts
+			if x.Call.StaticCallee() == nil && !x.Call.IsInvoke() && len(x.Call.Args) == 1 && isFloat64(x.Call.Args[0].Type()) && isFloat64(x.Type()) {
+				floatChain(x.Call.Args[0], seen, chain, risky, false)
+			}
 		}
 	}
+}
+
+// isJSONNumberFloat64: the call is (encoding/json.Number).Float64.
+func isJSONNumberFloat64(c *ssa.Call) bool {
+	g := c.Call.StaticCallee()
+	if g == nil || g.Name() != "Float64" || g.Signature.Recv() == nil {
+		return false
+	}
+	nt, ok := g.Signature.Recv().Type().(*types.Named)
+	return ok && nt.Obj().Pkg() != nil && nt.Obj().Pkg().Path() == "encoding/json" && nt.Obj().Name() == "Number"
 }
 
 // rawFloatFns: unexported functions of package exec that return a computed
@@ -392,6 +412,39 @@ var ruleFinite = &Rule{
 		check = func(fn *ssa.Function, v ssa.Value, blk *ssa.BasicBlock, pos token.Pos, what string) {
 			var chain, risky []ssa.Value
 			floatChain(v, map[ssa.Value]bool{}, &chain, &risky, true)
+			// a double parsed out of a json.Number is finite wherever the
+			// parse error is known to be nil
+			{
+				kept := risky[:0:0]
+				fs0 := factsAt(blk)
+				for _, r := range risky {
+					if ex, ok := r.(*ssa.Extract); ok {
+						if c, ok := ex.Tuple.(*ssa.Call); ok && isJSONNumberFloat64(c) {
+							if ev := extractOf(c, 1); ev != nil {
+								if isNil, _ := nilFact(fs0, ev); isNil {
+									continue
+								}
+								// … or wherever the double is used
+								all, nuse := true, 0
+								for _, ref := range *ex.Referrers() {
+									if _, dbg := ref.(*ssa.DebugRef); dbg || ref.Block() == nil {
+										continue
+									}
+									nuse++
+									if isNil, _ := nilFact(factsAt(ref.Block()), ev); !isNil {
+										all = false
+									}
+								}
+								if all && nuse > 0 {
+									continue
+								}
+							}
+						}
+					}
+					kept = append(kept, r)
+				}
+				risky = kept
+			}
 			if len(risky) == 0 {
 				return
 			}
@@ -483,6 +536,21 @@ var ruleFinite = &Rule{
 			for _, r := range returnsOf(fn) {
 				for _, v := range r.Results {
 					if isFloat64(v.Type()) || types.IsInterface(v.Type()) && !isErrorType(v.Type()) {
+						// a parsed double handed back together with its parse error
+						// (`f, err := num.Float64(); return f, err`) is the caller's to check
+						if ex, ok := stripConvPlain(v).(*ssa.Extract); ok {
+							if c, ok := ex.Tuple.(*ssa.Call); ok && isJSONNumberFloat64(c) {
+								withErr := false
+								for _, o := range r.Results {
+									if oe, ok := stripConvPlain(o).(*ssa.Extract); ok && oe.Tuple == ex.Tuple && oe.Index == 1 {
+										withErr = true
+									}
+								}
+								if withErr {
+									continue
+								}
+							}
+						}
 						check(fn, v, r.Instr.Block(), r.Instr.Pos(), "returned")
 					}
 				}
@@ -1171,7 +1239,7 @@ func init() {
 	register(ruleFinite, ruleDiv, ruleOvf, ruleF2I, ruleListIndex)
 	addProp(&PropSpec{
 		ID:          "C13",
-		Rules:       []string{"R-DIV", "R-OVF", "R-FINITE", "R-LISTINDEX", "R-TOWER", "R-F2I", "R-FOLD", "R-NUMLIT", "R-INPUT-RO", "R-PREC", "R-ERRFIRST", "R-ARITHOP", "R-RESUPPRESS"},
+		Rules:       []string{"R-DIV", "R-OVF", "R-FINITE", "R-LISTINDEX", "R-TOWER", "R-F2I", "R-FOLD", "R-NUMLIT", "R-INPUT-RO", "R-PREC", "R-ERRFIRST", "R-ARITHOP", "R-RESUPPRESS", "R-OPERANDORDER"},
 		Explanation: "'Exact or loud' as guard discipline on SSA instructions: every division on item values is zero-tested, every raw int64 operation on item values is reachable only behind an overflow test on the same operands (falling back to the double operation), every computed double is finiteness-checked before it can become an item, every operand sequence is length-tested before its single element is read, and the three numeric representations are handled together.",
 		Decided: []string{"R-DIV: zero tests dominate / and %, the zero branch is a suppressible error", "R-OVF: raw integer arithmetic only behind an overflow test (binary) or a MinInt64 test (unary)",
 			"R-FINITE: no Inf/NaN leaves a computing function", "R-LISTINDEX: singleton test before operand[0], failing branch suppressible", "R-TOWER: numeric representations are siblings"},
